@@ -69,6 +69,9 @@ def strategy_(draw):
             # chunk, also in a ragged last block of rows or columns
             spec['query']['enc'] = 'dense'
             spec['query']['rechunk'] = draw(st.sampled_from([[1, 1], [2, 3], [3, 1000], [1000, 2], [4, 4], [5, 3], [7, 7]]))
+        if draw(st.booleans()):
+            # the file carries the entries the package's own validation step leaves in uns
+            spec['query']['uns'] = {'AIBS_CDM_n_mapped_genes': g, 'AIBS_CDM_gene_mapping': {}}
         t['row'] = draw(st.integers(0, n - 1))
         t['col'] = draw(st.integers(0, g - 1))
         t['value'] = draw(st.sampled_from([-1, -3, -0.5, -1e-3, -1e-7, -1e-12, -1e-30]))
